@@ -64,7 +64,8 @@ structure WState where
 def WState.init : WState := { expected := none, deadline := none }
 
 /-- `if expected_version is not None and expected_version == get_version(raw_event): reset both`.
-    `get_version` is None for an event without `metadata.resourceVersion`. -/
+    `get_version` is None for an event without `metadata.resourceVersion`. Nothing else resets them:
+    not the event's type (listed or streamed), not its age. -/
 def arrive (s : WState) (v : Option Ver) : WState :=
   match s.expected with
   | some e => if v = some e then WState.init else s
@@ -86,6 +87,10 @@ structure Iter where
   patched : Option Ver    -- version returned by the processor (None: no PATCH, or it hit a 404)
   tp : Int               -- when the server applied that PATCH (meaningful when `patched` is some)
   tret : Int             -- `loop.time()` when the processor returned
+  listed : Bool := false  -- `raw_event['type'] is None`: the object comes from a (re-)listing — after a start,
+                          -- a reconnect, a "410 Gone" — not from the watch stream. The worker does NOT look at
+                          -- it: a listing made while a handler ran is queued before that handler's PATCH and
+                          -- dequeued after it, so a listed view can be older than the own last write.
   deriving DecidableEq, Repr
 
 structure Slept where
